@@ -87,12 +87,13 @@ ClassesCaps == {"TRANSIENT", "RATE_LIMIT", "UNKNOWN", "PERMANENT"}
 OutsCaps == {OkOut} \cup FailOuts({"exc", "res"}, ClassesCaps, {None})
 ConfigsC01 ==
     { [Base EXCEPT !.maxAtt = ma, !.rc = TRUE, !.maxUnk = mu,
-                   !.lim = [NoLim EXCEPT !["TRANSIENT"] = la, !["RATE_LIMIT"] = lb]] :
-        ma \in 0..4, la \in {None, 0, 1, 2}, lb \in {None, 1}, mu \in {None, 0, 1, 2} }
+                   \* (a per-class entry for a non-retryable class does not make it retryable)
+                   !.lim = [NoLim EXCEPT !["TRANSIENT"] = la, !["RATE_LIMIT"] = lb, !["PERMANENT"] = lp]] :
+        ma \in 0..4, la \in {None, 0, 1, 2}, lb \in {None, 1}, lp \in {None, 2}, mu \in {None, 0, 1, 2} }
 ConfigsC01Small ==
     { [Base EXCEPT !.maxAtt = ma, !.rc = TRUE, !.maxUnk = mu,
-                   !.lim = [NoLim EXCEPT !["TRANSIENT"] = la, !["RATE_LIMIT"] = lb]] :
-        ma \in {0, 2, 3}, la \in {None, 0, 1}, lb \in {None, 1}, mu \in {None, 1} }
+                   !.lim = [NoLim EXCEPT !["TRANSIENT"] = la, !["RATE_LIMIT"] = lb, !["PERMANENT"] = lp]] :
+        ma \in {0, 2, 3}, la \in {None, 0, 1}, lb \in {None, 1}, lp \in {None, 2}, mu \in {None, 1} }
 
 \* ---- shared environment sets --------------------------------------------
 T == "TRANSIENT"  R == "RATE_LIMIT"  U == "UNKNOWN"  P == "PERMANENT"
